@@ -79,7 +79,8 @@ func c05Norm(from interface{}, o normOpts, desc string, tags ...string) Case {
 // flattenPartial rewrites nested maps into dotted keys at random places (disjoint expansions).
 func flattenPartial(r *Rng, t map[string]interface{}, p int) map[string]interface{} {
 	out := map[string]interface{}{}
-	for k, v := range t {
+	for _, k := range sortedKeys(t) {
+		v := t[k]
 		m, ok := v.(map[string]interface{})
 		if !ok || len(m) == 0 {
 			out[k] = v
@@ -87,8 +88,8 @@ func flattenPartial(r *Rng, t map[string]interface{}, p int) map[string]interfac
 		}
 		m = flattenPartial(r, m, p)
 		if r.P(p, 8) {
-			for k2, v2 := range m {
-				out[k+"."+k2] = v2
+			for _, k2 := range sortedKeys(m) {
+				out[k+"."+k2] = m[k2]
 			}
 		} else {
 			out[k] = m
@@ -112,7 +113,8 @@ func splitMix(r *Rng, t map[string]interface{}) map[string]interface{} {
 				return
 			}
 			sub := map[string]interface{}{}
-			for k, e := range x {
+			for _, k := range sortedKeys(x) {
+				e := x[k]
 				if r.Bool() {
 					walk(prefix+"."+k, e, sub, k)
 				} else {
@@ -135,7 +137,8 @@ func splitMix(r *Rng, t map[string]interface{}) map[string]interface{} {
 			for i, e := range x {
 				if em, ok := e.(map[string]interface{}); ok && len(em) > 0 {
 					keep := map[string]interface{}{}
-					for k, ev := range em {
+					for _, k := range sortedKeys(em) {
+						ev := em[k]
 						if r.Bool() {
 							keep[k] = ev
 						} else {
@@ -152,8 +155,8 @@ func splitMix(r *Rng, t map[string]interface{}) map[string]interface{} {
 			nested[key] = v
 		}
 	}
-	for k, v := range t {
-		walk(k, v, out, k)
+	for _, k := range sortedKeys(t) {
+		walk(k, t[k], out, k)
 	}
 	return out
 }
@@ -166,8 +169,8 @@ func flat(prefix string, v interface{}, put func(string, interface{}), r *Rng) {
 			put(prefix, v)
 			return
 		}
-		for k, e := range x {
-			flat(prefix+"."+k, e, put, r)
+		for _, k := range sortedKeys(x) {
+			flat(prefix+"."+k, x[k], put, r)
 		}
 	case []interface{}:
 		if len(x) == 0 || r.P(1, 2) {
@@ -199,10 +202,7 @@ func kvsOf(m map[string]interface{}) string {
 func repeatOutcomes(r *Rng, m map[string]interface{}, o normOpts, runs int) ([]string, []string) {
 	seen := map[string]bool{}
 	var coqs, descs []string
-	keys := make([]string, 0, len(m))
-	for k := range m {
-		keys = append(keys, k)
-	}
+	keys := sortedKeys(m)
 	for i := 0; i < runs; i++ {
 		// rebuild the map under a fresh insertion order
 		for j := len(keys) - 1; j > 0; j-- {
